@@ -359,6 +359,87 @@ fn run_sizes(h: &mut H, mode: &str, kind: usize, size: usize) -> Result<Vec<Valu
 }
 
 
+// ------------------------------------------------------------------ (F) saves of a dataset with uncollected remains in it
+
+/// `n` keys whose deadline has passed but which nobody has looked at and no sweeper pass has collected lie among 64
+/// permanent keys of all six types (so that every shard holds both kinds) when the save starts. The completed dump must
+/// hold every permanent key (a seeded key listing stopped at the first such remains it met in a shard: everything behind
+/// it in the shard's iteration order was left out of a dump that the save reported as successful).
+fn run_remains(h: &mut H, mode: &str, n: usize, layout: usize) -> Result<Vec<Value>, String> {
+    h.ensure()?;
+    let mut problems = Vec::new();
+    h.must_ok(&["FLUSHALL"])?;
+    // no sweeper pass between the writes below and the save
+    if let Some(w) = vtime::next_wake() {
+        if w < vtime::mono_ns() + 600 * MS {
+            vtime::advance_to(w + 1).map_err(|_| "settle timeout letting the sweeper run".to_string())?;
+        }
+    }
+    let permanent = |h: &mut H, i: usize| -> Result<(), String> {
+        let k = format!("p{}", i);
+        match i % 6 {
+            0 => h.must_ok(&["SET", &k, "v"]),
+            1 => h.must_ok(&["RPUSH", &k, "a", "b"]),
+            2 => h.must_ok(&["SADD", &k, "m"]),
+            3 => h.must_ok(&["HSET", &k, "f", "v"]),
+            4 => h.must_ok(&["ZADD", &k, "1", "m"]),
+            _ => h.must_ok(&["XADD", &k, "1-1", "f", "v"]),
+        }
+    };
+    let remains = |h: &mut H, i: usize| -> Result<(), String> { h.must_ok(&["SET", &format!("e{}", i), "v", "PX", "50"]) };
+    match layout {
+        0 => {
+            for i in 0..n { remains(h, i)?; }
+            for i in 0..64 { permanent(h, i)?; }
+        }
+        1 => {
+            for i in 0..64 { permanent(h, i)?; }
+            for i in 0..n { remains(h, i)?; }
+        }
+        _ => {
+            for i in 0..64.max(n) {
+                if i < 64 { permanent(h, i)?; }
+                if i < n { remains(h, i)?; }
+            }
+        }
+    }
+    h.must_ok(&["SELECT", "3"])?;
+    h.must_ok(&["SET", "e0", "v", "PX", "50"])?;
+    h.must_ok(&["SET", "p0", "other database"])?;
+    h.must_ok(&["SELECT", "0"])?;
+    vtime::tick(150 * MS).map_err(|_| "settle timeout during tick".to_string())?;
+    let written = ["before the permanent keys", "after them", "interleaved"][layout];
+    let ctx = json!({"mode": mode, "remains": n, "written": written});
+    let ends = gate::counter(vh::BGSAVE_END);
+    let reply = h.calls(&[mode])?;
+    if reply.is_err() {
+        problems.push(json!({"problem": "save-refused", "ctx": ctx, "reply": resp::show(&reply)}));
+        return Ok(problems);
+    }
+    if mode == "BGSAVE" && h.wait_bgsave_done(ends + 1).is_err() {
+        problems.push(json!({"problem": "background-save-never-ended", "ctx": ctx}));
+        h.drop_server();
+        return Ok(problems);
+    }
+    match h.loader.load(&h.dump_path()) {
+        Ok(loaded) => {
+            let live = h.live();
+            if live.len() != 65 {
+                return Err(format!("the live dataset has {} keys, 65 expected", live.len()));
+            }
+            if !same_dataset(&loaded, &live) {
+                let missing: Vec<String> = live.keys().filter(|k| !loaded.contains_key(*k)).map(|k| format!("db{} {}", k.0, k.1)).collect();
+                let extra: Vec<String> = loaded.keys().filter(|k| !live.contains_key(*k)).map(|k| format!("db{} {}", k.0, k.1)).take(5).collect();
+                problems.push(json!({"problem": if !missing.is_empty() { "completed-dump-lacks-permanent-keys" } else { "completed-dump-differs-from-the-dataset" }, "ctx": ctx, "keys_live": live.len(), "keys_loaded": loaded.len(),
+                    "missing": missing.len(), "first_missing": missing.iter().take(5).cloned().collect::<Vec<_>>(), "not_in_the_dataset": extra}));
+            }
+        }
+        Err(e) => problems.push(json!({"problem": "completed-dump-does-not-load", "ctx": ctx, "error": e})),
+    }
+    Ok(problems)
+}
+
+
 // ------------------------------------------------------------------ (E) the operating system refuses the write
 
 fn set_fsize_limit(n: Option<u64>) {
@@ -1238,6 +1319,30 @@ pub fn handle_factory() -> impl FnMut(&str, &Value, &mut WorkerIo) -> (Value, bo
                     None => json!({"cases": cases, "problems": problems}),
                 }, false)
             }
+            "remains" => {
+                let hh = h.as_mut().unwrap();
+                let mode = task["mode"].as_str().unwrap_or("SAVE").to_string();
+                let mut problems = Vec::new();
+                let mut cases = 0u64;
+                let mut error: Option<String> = None;
+                'outer: for n in [1usize, 16, 64] {
+                    for layout in 0..3usize {
+                        cases += 1;
+                        match run_remains(hh, &mode, n, layout) {
+                            Ok(p) => problems.extend(p),
+                            Err(e) => {
+                                error = Some(e);
+                                break 'outer;
+                            }
+                        }
+                    }
+                }
+                hh.drop_server();
+                (match error {
+                    Some(e) => json!({"error": e}),
+                    None => json!({"cases": cases, "problems": problems}),
+                }, false)
+            }
             "osfaults" => {
                 let hh = h.as_mut().unwrap();
                 let r = run_os_faults(hh, task["mode"].as_str().unwrap_or("SAVE"));
@@ -1434,6 +1539,10 @@ pub fn parent(tier: &str) -> i32 {
             tasks.push(json!({"kind": "sizes", "mode": mode, "size_kind": k, "thorough": thorough}));
         }
     }
+    // (F)
+    for mode in ["SAVE", "BGSAVE"] {
+        tasks.push(json!({"kind": "remains", "mode": mode, "thorough": thorough}));
+    }
     tasks.push(json!({"kind": "syncclock", "thorough": thorough}));
     // (C): ask a worker for the sizes, then partition
     let mut read_space = json!({});
@@ -1528,6 +1637,20 @@ pub fn parent(tier: &str) -> i32 {
                                 property: "C10".into(),
                                 sig: format!("C10|sizes|{}|{}|{}|{}", t["mode"].as_str().unwrap_or(""), p["ctx"]["kind"].as_str().unwrap_or(""), p["ctx"]["size"], p["problem"].as_str().unwrap_or("")),
                                 replay: json!({"kind": "sizes", "task": t, "detail": p}),
+                            });
+                        }
+                    }
+                    "remains" => {
+                        let n = v["cases"].as_u64().unwrap_or(0);
+                        *per_family.entry("completed-saves-with-uncollected-remains".to_string()).or_default() += n;
+                        if n == 0 {
+                            report.machinery_errors.push(format!("{}: no case run", t));
+                        }
+                        for p in v["problems"].as_array().cloned().unwrap_or_default() {
+                            report.deviations.push(Deviation {
+                                property: "C10".into(),
+                                sig: format!("C10|remains|{}|{}|{}", t["mode"].as_str().unwrap_or(""), p["ctx"]["written"].as_str().unwrap_or(""), p["problem"].as_str().unwrap_or("")),
+                                replay: json!({"kind": "remains", "task": t, "detail": p}),
                             });
                         }
                     }
